@@ -52,8 +52,8 @@ def main():
     bad = [r for r in rows if not r['agree']]
     out = {'compared': len(rows), 'disagreements': len(bad), 'real_processes': sum(r['real_processes'] for r in rows),
            'real_kills': sum(r['real_kills'] for r in rows), 'wall_s': round(time.time() - t0, 1), 'rows': rows}
-    os.makedirs('/verif/evidence', exist_ok=True)
-    json.dump(out, open('/verif/evidence/crossval_realproc.json', 'w'), indent=1)
+    os.makedirs('/verif/crossval', exist_ok=True)
+    json.dump(out, open('/verif/crossval/realproc.json', 'w'), indent=1)
     print('cross-validation against real process death: %d plans, %d real processes, %d real kills, %d disagreements, %.0fs' % (
         len(rows), out['real_processes'], out['real_kills'], len(bad), out['wall_s']))
     for r in bad[:5]:
